@@ -30,7 +30,8 @@ ID_KINDS = {
     'uuid': (uuid.UUID('00000000-0000-0000-0000-000000000001'), uuid.UUID('00000000-0000-0000-0000-000000000011')),
     'str': ('p', 'pq'),
 }
-TAGS_BY_KIND = {'int': (None, 1, 11), 'uuid': (None, 't', 'tu'), 'str': (None, 't', 'tu')}
+# (falsy tags - 0 and '' - are tags like any other and not "no tag"; 1/11 and 't'/'tu' are string prefixes of each other)
+TAGS_BY_KIND = {'int': (None, 0, 11, 1), 'uuid': (None, 't', 'tu'), 'str': (None, '', 'tu', 't')}
 
 
 class Stepper(plumpy.Process):
